@@ -233,7 +233,7 @@ var blockedStatus = map[string]bool{
 }
 
 // SettleTimeout bounds Settle; exceeding it is a harness failure, not a verdict.
-var SettleTimeout = 20 * time.Second
+var SettleTimeout = 60 * time.Second
 
 // Settle waits until every live process is at a gate, done, or parked.
 func (s *Sched) Settle() error {
